@@ -56,18 +56,26 @@ def snapshot_isolation(chk: Check, rule: str = 'PROV-snapshot-isolation') -> Non
            node=stores[0] if stores else None, kind='save:dereferenced')
     bi = prog.func('persistence.Bundle.__init__')
     bf = chk.ctx.facts.analyse(bi)
-    from ..rules import conditional_values
+    # decision table over ``dereference``: what reaches update() on each path (locals re-bound on the way are followed)
+    from ..decisions import paths_under as _pu, value_on_path as _vop
     upd = [c for c in calls_in_func(bi, 'update')]
-    # (facts, value) for everything handed to update(): directly, or through a local assigned per branch
-    handed = []
-    for c in upd:
-        a0 = c.args[0] if c.args else None
-        if isinstance(a0, ast.Name):
-            handed += [(fs, v) for fs, v in conditional_values(bf, a0.id)]
-        elif a0 is not None:
-            handed += [(bf.at(n), a0) for n in bf.cfg.nodes_containing(c)]
     is_copy = lambda v: isinstance(v, ast.Call) and norm(v.func) == 'copy.deepcopy'
-    ok = any(is_copy(v) for _, v in handed) and all((('T', 'dereference') in fs) if is_copy(v) else (('F', 'dereference') in fs) for fs, v in handed)
+    ok = bool(upd)
+    seen_copy = False
+    for want in (True, False):
+        for path in _pu(bf, {'dereference': want}):
+            if path[-1] is not bf.cfg.exit:
+                continue
+            hits = [(i, c) for i, m in enumerate(path) for c in upd if any(c is x for x in (walk_shallow(m.expr()) if m.expr() is not None else []))]
+            if not hits:
+                ok = False
+                continue
+            i, c = hits[-1]
+            v = _vop(path, i, c.args[0]) if c.args else None
+            if want:
+                ok &= is_copy(v)
+                seen_copy |= is_copy(v)
+    ok &= seen_copy
     chk.ob(rule, bi, ok, 'Bundle(dereference=True) deep-copies the saved state', kind='bundle-dereference')
     pst = prog.view(pic.methods['save_checkpoint'])
     cfg = cfg_of(pst)
@@ -157,8 +165,10 @@ def run(chk: Check) -> None:
     chk.ob('SIB-key-function', fp, len(c) == 1 and [norm(a) for a in c[0].args] == fp.params[1:3] and any('self._pickle_directory' in norm(a) for j in calls_in_func(fp, 'join') for a in j.args),
            'the path is <directory>/<name(pid, tag)>', kind='path-from-name')
     gp = prog.view(pic.methods['get_process_checkpoints'])
-    comp = [n for n in ast.walk(gp.node) if isinstance(n, ast.ListComp)]
-    ok = len(comp) == 1 and len(comp[0].generators[0].ifs) == 1 and norm(comp[0].generators[0].ifs[0]) in (f'c.pid == {gp.params[1]}', f'{gp.params[1]} == c.pid')
+    from ..rules import built_sequence
+    seq = built_sequence(gp)
+    ok = seq is not None and len(seq.gens) == 1 and seq.filters() in ([f'<item>.pid == {gp.params[1]}'], [f'{gp.params[1]} == <item>.pid']) and \
+        isinstance(seq.elt, ast.Name) and norm(seq.elt) == norm(seq.gens[0][0])
     chk.ob('SIB-key-function', gp, ok, 'the checkpoints of a process are those whose pid equals the given pid', kind='filter-by-pid')
     mg = prog.view(mem.methods['get_process_checkpoints'])
     ok = any(isinstance(n, ast.Subscript) and norm(n) == f'self._checkpoints[{mg.params[1]}]' for n in ast.walk(mg.node))
